@@ -447,8 +447,11 @@ class DefaultParser(Parser):
     def __call__(self, input: str, /) -> Sentence:
         if isinstance(input, Sentence):
             return input
-        with ParseContext(input, self.table, self.predicates) as context:
-            return self._read(context)
+        try:
+            with ParseContext(input, self.table, self.predicates) as context:
+                return self._read(context)
+        except RecursionError:
+            raise ParseError('Input is nested too deeply') from None
 
     _methodmap = MapProxy({
         Operator: '_read_operated',
